@@ -79,6 +79,9 @@ fn decode_seq_rf(
             }
             *declined = std::mem::take(&mut mon.borrow_mut().refusals);
         }
+        ReaderCfg::Sparse(_) => {
+            // not used for packs
+        }
         ReaderCfg::Owned | ReaderCfg::Segmented(_) => {
             let cuts: &[usize] = match rcfg {
                 ReaderCfg::Segmented(c) => c,
